@@ -626,9 +626,28 @@ mod harnesses {
         )
     }
 
+    // Stubs for `step_other_char` (needs `-Z stubbing`). A symbolic first character makes CBMC
+    // encode every arm of `into_tokens`, and the identifier / number / string / comment arms are
+    // what makes that infeasible (> 10 min, > 10 GB). Under assumption A5 none of these arms may be
+    // taken, so none may ever create a token or lex an f-string expression: the two functions they
+    // all end in are replaced by stubs that FAIL when reached. A successful run therefore shows the
+    // stubs are never called, i.e. the real code behaves identically.
+    fn stub_state_token(_state: &mut VerifState, token: Token) -> Vec<Lex> {
+        assert!(false, "step_other_char: State::token reached for an unhandled first character");
+        forget(token);
+        Vec::new()
+    }
+
+    fn stub_tokenize_direct(_input: &str) -> LexResult<Vec<Lex>> {
+        assert!(false, "step_other_char: tokenize_direct reached for an unhandled first character");
+        Ok(Vec::new())
+    }
+
     /// Any other first character (any Unicode scalar value) at end of input: Err, no panic.
     #[kani::proof]
     #[kani::unwind(6)]
+    #[kani::stub(mamba::parse::lex::state::State::token, stub_state_token)]
+    #[kani::stub(mamba::parse::lex::tokenize_direct, stub_tokenize_direct)]
     fn step_other_char() {
         let c: char = kani::any();
         kani::assume(!handled_first_char(c)); // A5: c starts no arm
@@ -647,6 +666,7 @@ mod harnesses {
             "step_other_char: caret unchanged"
         );
         kani::cover!(c as u32 > 127, "cover: non-ASCII character");
+        kani::cover!(c as u32 > 0xffff, "cover: character outside the BMP");
         kani::cover!((c as u32) < 32, "cover: control character");
         kani::cover!(c == ';', "cover: ';'");
         forget(res);
@@ -656,16 +676,30 @@ mod harnesses {
     // ==========================================================================================
     // B. State one-step summaries
     // ==========================================================================================
+    //
+    // Shape of these harnesses (measured): as soon as the *content* of the returned Vec<Lex> is
+    // read, symbolic indentation widths make every `vec![lex; amount]` / `append` an allocation of
+    // symbolic size; CBMC then models the buffers with its array theory and runs out of 12 GB in
+    // post-processing (also with --solver z3), even for one symbolic read index and no pending
+    // newlines. (Length-and-state-only assertions on symbolic widths do go through, 55-80 s, but
+    // say nothing about order.) Therefore cur_indent, line_indent and the number of pending
+    // newlines are ENUMERATED by concrete loops inside the harness - every value of the bound,
+    // D levels, arbitrary (not multiple-of-4) widths - while caret line/column and
+    // token_this_line stay symbolic. Every loop iteration is exactly one call from a fresh state.
 
-    /// Maximum block depth considered: indents range over [1, 4*D + 1].
+    /// Maximum block depth considered: indentation widths range over [1, 4*D + 1].
     pub const D: usize = 3;
     pub const MAX_INDENT: i32 = 4 * (D as i32) + 1;
-    /// Largest possible result of `State::token`: 2 pending + D (in|de)dents + 1 NL + 1 token.
-    pub const MAX_RES: usize = 2 + D + 1 + 1;
+    /// Pending newlines considered: 0..=MAX_PENDING.
+    pub const MAX_PENDING: usize = 2;
+    /// Largest possible result of `State::token`: pending + D (in|de)dents + 1 NL + 1 token.
+    pub const MAX_RES: usize = MAX_PENDING + D + 1 + 1;
     /// Line numbers of the pre-seeded pending newlines: distinct from each other and from any
     /// caret line (<= 1000), so their order in the result can be told apart.
     pub const PENDING_LINE: usize = 2000;
 
+    /// State before the call.
+    #[derive(Clone, Copy)]
     pub struct Pre {
         pub c: i32,
         pub l: i32,
@@ -682,30 +716,25 @@ mod harnesses {
         }
     }
 
-    /// Arbitrary lexer state within the bounds.
-    pub fn any_state() -> (VerifState, Pre) { any_state_k::<3>() }
-    pub fn any_state_k<const KF: usize>() -> (VerifState, Pre) {
-        let c: i32 = kani::any();
-        let l: i32 = kani::any();
-        kani::assume(c >= 1 && c <= MAX_INDENT); // B1: 1 <= cur_indent <= 4*D+1
-        kani::assume(l >= 1 && l <= MAX_INDENT); // B2: 1 <= line_indent <= 4*D+1
-        let ttl: bool = kani::any();
+    /// Symbolic part of the start state: caret anywhere in 1000 x 1000, token_this_line free.
+    pub fn any_caret_and_flag() -> (CaretPos, bool) {
         let line: usize = kani::any();
         let col: usize = kani::any();
-        kani::assume(line >= 1 && line <= 1000); // B3
-        kani::assume(col >= 1 && col <= 1000); // B4
-        let k: usize = if KF < 3 { KF } else { kani::any() };
-        kani::assume(k <= 2); // B5: 0..=2 pending newlines
-        let mut newlines: Vec<Lex> = Vec::with_capacity(3);
-        if k >= 1 {
-            newlines.push(pending_nl(0));
+        kani::assume(line >= 1 && line <= 1000); // B1
+        kani::assume(col >= 1 && col <= 1000); // B2
+        let ttl: bool = kani::any();
+        (CaretPos::new(line, col), ttl)
+    }
+
+    /// The state described by `pre`; pending newline i sits at (PENDING_LINE + i, 1).
+    pub fn mk_state(pre: &Pre) -> VerifState {
+        let mut newlines: Vec<Lex> = Vec::with_capacity(MAX_PENDING + 1);
+        let mut i = 0;
+        while i < pre.k {
+            newlines.push(pending_nl(i));
+            i += 1;
         }
-        if k >= 2 {
-            newlines.push(pending_nl(1));
-        }
-        let pos = CaretPos::new(line, col);
-        let state = VerifState::verif_new(newlines, c, l, ttl, pos);
-        (state, Pre { c, l, ttl, k, pos })
+        VerifState::verif_new(newlines, pre.c, pre.l, pre.ttl, pre.pos)
     }
 
     /// Nesting level of a 1-based indentation width: 1..=4 -> 0, 5..=8 -> 1, ...
@@ -718,7 +747,9 @@ mod harnesses {
     }
 
     fn is_pending(lex: &Lex, i: usize) -> bool {
-        kind_of(&lex.token) == K::NL && lex.pos.start.line == PENDING_LINE + i
+        kind_of(&lex.token) == K::NL
+            && lex.pos.start.line == PENDING_LINE + i
+            && lex.pos.start.pos == 1
     }
 
     /// Post-condition of `State::token(t)` for a non-NL token `t` of kind `kind` and width `w`.
@@ -726,8 +757,7 @@ mod harnesses {
     /// Result layout (state.rs): [last pending NL]? ++ (Indent^a | Dedent^a ++ NL) ++
     /// [remaining pending NLs in order] ++ [t], where a = |level(l) - level(c)|,
     /// level(w) = (w - 1) / 4.
-    fn check_token_post(res: &Vec<Lex>, state: &VerifState, pre: &Pre, kind: K, w: usize) { check_token_post_x::<true>(res, state, pre, kind, w) }
-    fn check_token_post_x<const CONTENT: bool>(res: &Vec<Lex>, state: &VerifState, pre: &Pre, kind: K, w: usize) {
+    fn check_token_post(res: &Vec<Lex>, state: &VerifState, pre: &Pre, kind: K, w: usize) {
         let up = pre.l >= pre.c;
         let amount: usize = if up {
             level(pre.l) - level(pre.c)
@@ -739,18 +769,20 @@ mod harnesses {
         let remaining: usize = pre.k - first;
         let expected_len = pre.k + amount + extra_nl + 1;
         assert!(res.len() == expected_len, "token: number of tokens returned");
-
         assert!(res.len() <= MAX_RES, "token: result length within bound");
 
-        // Content: the role of EVERY position, stated for one symbolic index i < len (a universally
-        // quantified index; reading all MAX_RES positions in one harness ran the solver out of
-        // 12 GB). The role-by-index statement fixes the kind at every index, hence also the number
-        // of Indent tokens (= a if l >= c else 0) and of Dedent tokens (= a if l < c else 0).
-        if CONTENT {
-            let i: usize = kani::any();
-            kani::assume(i < res.len()); // B6: i ranges over all positions of the result
+        let mut indents: usize = 0;
+        let mut dedents: usize = 0;
+        let mut i: usize = 0;
+        while i < res.len() {
             let lex = &res[i];
             let kd = kind_of(&lex.token);
+            if kd == K::Indent {
+                indents += 1;
+            }
+            if kd == K::Dedent {
+                dedents += 1;
+            }
             if i < first {
                 assert!(
                     is_pending(lex, pre.k - 1),
@@ -781,15 +813,16 @@ mod harnesses {
                     "token: token ends width columns further"
                 );
             }
-            kani::cover!(i == 0 && first == 1, "cover: index of popped newline");
-            kani::cover!(kd == K::Indent, "cover: index of an Indent");
-            kani::cover!(kd == K::Dedent, "cover: index of a Dedent");
-            kani::cover!(
-                i >= first + amount + extra_nl && i < first + amount + extra_nl + remaining,
-                "cover: index of a remaining pending newline"
-            );
-            kani::cover!(i + 1 == res.len(), "cover: index of the token itself");
+            i += 1;
         }
+        assert!(
+            indents == if up { amount } else { 0 },
+            "token: number of Indent tokens == level(l)-level(c) if l >= c else 0"
+        );
+        assert!(
+            dedents == if up { 0 } else { amount },
+            "token: number of Dedent tokens == level(c)-level(l) if l < c else 0"
+        );
 
         let (c2, l2, ttl2, pending2) = state.verif_view();
         assert!(c2 == pre.l, "token: cur_indent becomes line_indent");
@@ -801,81 +834,63 @@ mod harnesses {
             "token: caret advanced by token width on the same line"
         );
 
-        kani::cover!(pre.l > pre.c, "cover: l > c");
-        kani::cover!(pre.l < pre.c, "cover: l < c");
+        kani::cover!(pre.l > pre.c && amount == 0, "cover: l > c within one level");
+        kani::cover!(pre.l < pre.c && amount == 0, "cover: l < c within one level");
         kani::cover!(pre.l == pre.c, "cover: l == c");
-        kani::cover!(pre.k == 2, "cover: k == 2");
+        kani::cover!(pre.k == MAX_PENDING, "cover: k == 2");
         kani::cover!(pre.k == 0, "cover: k == 0");
-        kani::cover!(amount == D, "cover: D indents/dedents at once");
+        kani::cover!(up && amount == D, "cover: D indents at once");
+        kani::cover!(!up && amount == D, "cover: D dedents at once");
         kani::cover!(res.len() == MAX_RES, "cover: longest result");
     }
 
-    #[kani::proof] #[kani::unwind(5)] fn var_k0_true() {
-        let (mut state, pre) = any_state_k::<0>();
-        let res = state.token(Token::Pass);
-        check_token_post_x::<true>(&res, &state, &pre, K::Pass, 4);
-        forget(res); forget(state);
-    }
-    #[kani::proof] #[kani::unwind(5)] fn var_k0_false() {
-        let (mut state, pre) = any_state_k::<0>();
-        let res = state.token(Token::Pass);
-        check_token_post_x::<false>(&res, &state, &pre, K::Pass, 4);
-        forget(res); forget(state);
-    }
-    #[kani::proof] #[kani::unwind(5)] fn var_k1_true() {
-        let (mut state, pre) = any_state_k::<1>();
-        let res = state.token(Token::Pass);
-        check_token_post_x::<true>(&res, &state, &pre, K::Pass, 4);
-        forget(res); forget(state);
-    }
-    #[kani::proof] #[kani::unwind(5)] fn var_k1_false() {
-        let (mut state, pre) = any_state_k::<1>();
-        let res = state.token(Token::Pass);
-        check_token_post_x::<false>(&res, &state, &pre, K::Pass, 4);
-        forget(res); forget(state);
-    }
-    #[kani::proof] #[kani::unwind(5)] fn var_k2_true() {
-        let (mut state, pre) = any_state_k::<2>();
-        let res = state.token(Token::Pass);
-        check_token_post_x::<true>(&res, &state, &pre, K::Pass, 4);
-        forget(res); forget(state);
-    }
-    #[kani::proof] #[kani::unwind(5)] fn var_k2_false() {
-        let (mut state, pre) = any_state_k::<2>();
-        let res = state.token(Token::Pass);
-        check_token_post_x::<false>(&res, &state, &pre, K::Pass, 4);
-        forget(res); forget(state);
-    }
-    #[kani::proof] #[kani::unwind(5)] fn var_k3_true() {
-        let (mut state, pre) = any_state_k::<3>();
-        let res = state.token(Token::Pass);
-        check_token_post_x::<true>(&res, &state, &pre, K::Pass, 4);
-        forget(res); forget(state);
-    }
-    #[kani::proof] #[kani::unwind(5)] fn var_k3_false() {
-        let (mut state, pre) = any_state_k::<3>();
-        let res = state.token(Token::Pass);
-        check_token_post_x::<false>(&res, &state, &pre, K::Pass, 4);
-        forget(res); forget(state);
-    }
-    #[kani::proof]
-    #[kani::unwind(5)]
-    fn state_token_pass() {
-        let (mut state, pre) = any_state();
-        let res = state.token(Token::Pass);
-        check_token_post(&res, &state, &pre, K::Pass, 4);
-        forget(res);
-        forget(state);
+    /// All (cur_indent, line_indent, pending) of the bound x symbolic caret / flag: one
+    /// `State::token(mk())` each.
+    fn token_summary<F: Fn() -> Token>(mk: F, kind: K, w: usize) {
+        let (pos, ttl) = any_caret_and_flag();
+        let mut c: i32 = 1;
+        while c <= MAX_INDENT {
+            let mut l: i32 = 1;
+            while l <= MAX_INDENT {
+                let mut k: usize = 0;
+                while k <= MAX_PENDING {
+                    let pre = Pre { c, l, ttl, k, pos };
+                    let mut state = mk_state(&pre);
+                    let res = state.token(mk());
+                    check_token_post(&res, &state, &pre, kind, w);
+                    forget(res);
+                    forget(state);
+                    k += 1;
+                }
+                l += 1;
+            }
+            c += 1;
+        }
     }
 
     #[kani::proof]
-    #[kani::unwind(5)]
+    #[kani::unwind(15)]
+    fn state_token_pass() {
+        token_summary(|| Token::Pass, K::Pass, 4);
+    }
+
+    #[kani::proof]
+    #[kani::unwind(15)]
     fn state_token_comment() {
-        let (mut state, pre) = any_state();
-        let res = state.token(Token::Comment(String::from("c")));
-        check_token_post(&res, &state, &pre, K::Comment, 2);
-        forget(res);
-        forget(state);
+        token_summary(|| Token::Comment(String::from("c")), K::Comment, 2);
+    }
+
+    /// Symbolic state for the summaries that never read vector contents.
+    pub fn any_state() -> (VerifState, Pre) {
+        let c: i32 = kani::any();
+        let l: i32 = kani::any();
+        kani::assume(c >= 1 && c <= MAX_INDENT); // B3: 1 <= cur_indent <= 4*D+1
+        kani::assume(l >= 1 && l <= MAX_INDENT); // B4: 1 <= line_indent <= 4*D+1
+        let k: usize = kani::any();
+        kani::assume(k <= MAX_PENDING); // B5: 0..=2 pending newlines
+        let (pos, ttl) = any_caret_and_flag();
+        let pre = Pre { c, l, ttl, k, pos };
+        (mk_state(&pre), pre)
     }
 
     #[kani::proof]
@@ -893,9 +908,11 @@ mod harnesses {
             state.pos.line == pre.pos.line + 1 && state.pos.pos == 1,
             "token(NL): caret at start of next line"
         );
-        kani::cover!(pre.k == 2, "cover: k == 2");
+        kani::cover!(pre.k == MAX_PENDING, "cover: k == 2");
         kani::cover!(pre.k == 0, "cover: k == 0");
         kani::cover!(pre.ttl, "cover: token_this_line before");
+        kani::cover!(pre.l > pre.c, "cover: l > c");
+        kani::cover!(pre.l < pre.c, "cover: l < c");
         forget(res);
         forget(state);
     }
@@ -919,50 +936,58 @@ mod harnesses {
         assert!(pending2 == pre.k, "space: pending newlines unchanged");
         kani::cover!(pre.ttl, "cover: token_this_line");
         kani::cover!(!pre.ttl, "cover: !token_this_line");
-        kani::cover!(pre.k == 2, "cover: k == 2");
+        kani::cover!(pre.k == MAX_PENDING, "cover: k == 2");
+        kani::cover!(pre.l > pre.c, "cover: l > c");
+        kani::cover!(pre.l < pre.c, "cover: l < c");
         forget(state);
     }
 
+    /// `flush_indents` from every cur_indent of the bound (enumerated, see above), the rest of the
+    /// state symbolic.
     #[kani::proof]
-    #[kani::unwind(5)]
+    #[kani::unwind(15)]
     fn state_flush() {
-        let (mut state, pre) = any_state();
-        let res = state.flush_indents();
-        let amount = level(pre.c);
-        assert!(res.len() == amount, "flush: level(cur_indent) Dedent tokens returned");
-        macro_rules! check_at {
-            ($i:expr) => {
-                if $i < res.len() {
-                    let lex = &res[$i];
-                    assert!(
-                        kind_of(&lex.token) == K::Dedent && at(lex, pre.pos),
-                        "flush: every token is a Dedent at the caret"
-                    );
-                    assert!(
-                        lex.pos.end.line == pre.pos.line && lex.pos.end.pos == pre.pos.pos,
-                        "flush: Dedent has zero width"
-                    );
-                }
-            };
+        let (pos, ttl) = any_caret_and_flag();
+        let l: i32 = kani::any();
+        kani::assume(l >= 1 && l <= MAX_INDENT); // B4
+        let k: usize = kani::any();
+        kani::assume(k <= MAX_PENDING); // B5
+        let mut c: i32 = 1;
+        while c <= MAX_INDENT {
+            let pre = Pre { c, l, ttl, k, pos };
+            let mut state = mk_state(&pre);
+            let res = state.flush_indents();
+            let amount = level(c);
+            assert!(res.len() == amount, "flush: level(cur_indent) Dedent tokens returned");
+            let mut i = 0;
+            while i < res.len() {
+                let lex = &res[i];
+                assert!(
+                    kind_of(&lex.token) == K::Dedent && at(lex, pos),
+                    "flush: every token is a Dedent at the caret"
+                );
+                assert!(
+                    lex.pos.end.line == pos.line && lex.pos.end.pos == pos.pos,
+                    "flush: Dedent has zero width"
+                );
+                i += 1;
+            }
+            let (c2, l2, ttl2, pending2) = state.verif_view();
+            assert!(c2 == 1, "flush: cur_indent becomes 1");
+            assert!(l2 == l, "flush: line_indent unchanged");
+            assert!(ttl2 == ttl, "flush: token_this_line unchanged");
+            assert!(pending2 == k, "flush: pending newlines unchanged");
+            assert!(
+                state.pos.line == pos.line && state.pos.pos == pos.pos,
+                "flush: caret unchanged"
+            );
+            kani::cover!(amount == 0, "cover: nothing to flush");
+            kani::cover!(amount == D, "cover: D dedents");
+            kani::cover!(k == MAX_PENDING, "cover: k == 2");
+            forget(res);
+            forget(state);
+            c += 1;
         }
-        check_at!(0);
-        check_at!(1);
-        check_at!(2);
-        assert!(D == 3 && res.len() <= D, "flush: result within unrolled bound");
-        let (c2, l2, ttl2, pending2) = state.verif_view();
-        assert!(c2 == 1, "flush: cur_indent becomes 1");
-        assert!(l2 == pre.l, "flush: line_indent unchanged");
-        assert!(ttl2 == pre.ttl, "flush: token_this_line unchanged");
-        assert!(pending2 == pre.k, "flush: pending newlines unchanged");
-        assert!(
-            state.pos.line == pre.pos.line && state.pos.pos == pre.pos.pos,
-            "flush: caret unchanged"
-        );
-        kani::cover!(amount == 0, "cover: nothing to flush");
-        kani::cover!(amount == D, "cover: D dedents");
-        kani::cover!(pre.k == 2, "cover: k == 2");
-        forget(res);
-        forget(state);
     }
 
     // ==========================================================================================
